@@ -51,6 +51,9 @@ def plan(prop, tier, seed):
     if prop in WIDE:
         for t in corpus.wide(nwide, seed, 140 if tier == 'quick' else 200):
             out.append((t, False))
+    if prop in ('C01', 'C02'):
+        for t in corpus.widesquare(seed, big=(tier == 'thorough')):
+            out.append((t, False))
     if prop in ('C03', 'C04', 'C05', 'C06', 'C08', 'C09', 'C10', 'C11') and tier == 'thorough':
         # larger lattices: random sparse contexts up to 14 x 14
         for t in corpus.randoms(300, seed + 1, 14, 14, 9, 9):
